@@ -66,6 +66,10 @@ def rand_note(rng, families=FAMILIES, inside=True):
         if k == "s" and rng.random() < 0.25:
             n["acc"] = rng.choice(ACCS)
         n["amp"] = rng.choice(AMPS) if rng.random() < 0.6 else 66
+    if k not in "sh" and rng.random() < 0.08:
+        n["mode"] = rng.choice(MODES)                         # r.m, l.dorian, x0.m, d3.lydian, c1.m: == compares the mode of every note
+    if k != "s" and rng.random() < 0.05:
+        n["acc"] = rng.choice(ACCS)
     if rng.random() < 0.2:
         n["tags"] = rng.sample(["a", "b", "staccato", "x1"], rng.choice([1, 1, 2]))
     return n
@@ -74,12 +78,12 @@ def rand_note(rng, families=FAMILIES, inside=True):
 def mk_note(n):
     from musiclang import Note, Silence, Continuation
     tags = set(n.get("tags", []))
-    if n["kind"] == "r":
-        x = Silence(F(n["dur"]), tags=tags)
-        return x.oabs(n["oct"]) if n.get("oct") else x
-    if n["kind"] == "l":
-        x = Continuation(F(n["dur"]), tags=tags)
-        return x.oabs(n["oct"]) if n.get("oct") else x
+    if n["kind"] in "rl":
+        x = Silence(F(n["dur"]), tags=tags) if n["kind"] == "r" else Continuation(F(n["dur"]), tags=tags)
+        x = x.oabs(n["oct"]) if n.get("oct") else x
+        if n.get("mode"): x = getattr(x, n["mode"])
+        if n.get("acc"): x = getattr(x, n["acc"])
+        return x
     return Note(n["kind"] + n.get("dir", ""), n["val"], n["oct"], F(n["dur"]), mode=n.get("mode"), accident=n.get("acc"),
                 amp=mlang.amp_live(n.get("amp", 66)), tags=tags)
 
@@ -128,7 +132,7 @@ class NoteText(Stream):
         def f():
             n = mk_note(case["note"])
             s = str(n)
-            order = [t for t in n.tags]
+            order = sorted(n.tags, key=repr)              # the text lists the tags in sorted order
             try:
                 m = eval(s, lib_namespace())
                 back = read_note(m)
@@ -484,6 +488,8 @@ class Tabular(Stream):
                 for nm, notes in c["parts"]:
                     for x in notes:
                         x["dur"] = rng.choice([F(1), F(1, 2), F(1, 4), F(3, 2), F(1, 8), F(3, 8), F(2), F(3, 4)])
+                        if _ % 4 == 1 and rng.random() < 0.25:
+                            x["dur"] = F(0)             # the empty duration (.n): two rows of one part then share their start time
             yield {"score": sg.equalize(sc)}
             if _ % 25 == 0:
                 # a table of a few hundred rows, the parts of every chord in another order
